@@ -405,7 +405,7 @@ Section Main.
 
   Notation bundleM := (bundle chain view cv tx_valid gt_ok work_needed hchain mroot).
   Notation can_bundleM := (can_bundle chain view work_needed).
-  Notation intakeM := (add_transaction_if_validates chain tx_valid).
+  Notation intakeM := (add_transaction_if_validates chain view tx_valid).
 
   (* ---------------------------------------------------------------- create: the list *)
   Lemma create_txs dbg (n : nodeM) creator ts gt drained b p :
@@ -445,6 +445,12 @@ Section Main.
     apply N.ltb_ge in E1. apply N.leb_le in E2. auto.
   Qed.
 
+  Lemma gate_started (n : nodeM) m ts g w :
+    can_bundleM n m ts g = Some w -> v_blocks_empty (view (n_chain _ n)) = false.
+  Proof.
+    unfold can_bundle. destruct (v_blocks_empty _); [discriminate|reflexivity].
+  Qed.
+
   (* bundle allowed => the block's total_work (recomputed by Block::generate over ALL its
      transactions) reaches the work Block::validate asks for -- provided the cached pool work
      does not over-report the pooled transactions *)
@@ -481,15 +487,28 @@ Section Main.
 
   Lemma intake_txs dbg (n : nodeM) m t m1 :
     intakeM dbg n m t = Ok m1 ->
-    (m_txs m1 = m_txs m \/ (m_txs m1 = t :: m_txs m /\ pool_tx_ok t = true))
+    (m_txs m1 = m_txs m \/ (m_txs m1 = t :: m_txs m /\ pool_tx_ok t = true
+                             /\ (v_blocks_empty (view (n_chain _ n)) = false -> is_type TIssuance t = false)))
     /\ m_gts m1 = m_gts m.
   Proof.
     unfold add_transaction_if_validates. destruct (producer_only t) eqn:Ep; [intros [= <-]; auto|].
     destruct (is_type TBlockStake t && negb (t_own t)); [intros [= <-]; auto|].
+    destruct (is_type TIssuance t && negb (v_blocks_empty (view (n_chain _ n)))) eqn:Ei; [intros [= <-]; auto|].
     destruct (tx_valid _ _ t); [|intros [= <-]; auto].
     intros H. destruct (add_transaction_txs dbg m t m1 H) as [[H1|[H1 H2]] H3]; split; auto.
-    right. split; [exact H1|]. unfold pool_tx_ok. unfold producer_only in Ep.
-    rewrite !orb_false_iff in Ep. destruct Ep as [[E1 E2] E3]. now rewrite H2, E1, E2.
+    right. split; [exact H1|]. split.
+    - unfold pool_tx_ok. unfold producer_only in Ep.
+      rewrite !orb_false_iff in Ep. destruct Ep as [[E1 E2] E3]. now rewrite H2, E1, E2.
+    - intros Hs. rewrite Hs in Ei. cbn [negb] in Ei. now rewrite andb_true_r in Ei.
+  Qed.
+
+  Lemma issuance_refused dbg (n : nodeM) m t m1 :
+    v_blocks_empty (view (n_chain _ n)) = false ->
+    intakeM dbg n m t = Ok m1 ->
+    (m_txs m1 = m_txs m \/ (m_txs m1 = t :: m_txs m /\ pool_tx_ok t = true /\ is_type TIssuance t = false))
+    /\ m_gts m1 = m_gts m.
+  Proof.
+    intros Hs Hi. destruct (intake_txs dbg n m t m1 Hi) as [[E|(E & Hok & Hni)] Hg]; split; auto.
   Qed.
 
   Lemma drain_perm order l : Permutation (drain_in order l) l.
@@ -640,7 +659,7 @@ Section Main.
     destruct (screen_ticket _ _ _ n m gt) as [gt' m0] eqn:Es.
     destruct (can_bundle _ _ _ n m0 ts (is_some gt')) as [w|] eqn:Eg; [|discriminate].
     destruct stake as [s|]; [|discriminate].
-    destruct (add_transaction_if_validates _ _ dbg n m0 s) as [m1| |s1] eqn:Ei; cbn [bind] in H; try discriminate.
+    destruct (add_transaction_if_validates _ _ _ dbg n m0 s) as [m1| |s1] eqn:Ei; cbn [bind] in H; try discriminate.
     destruct (create _ _ _ _ _ dbg n creator ts gt' _) as [b0| |s2] eqn:Ec; try discriminate.
     injection H as <- <-. exists gt', m0, w, s, m1. cbn. repeat split; auto.
     destruct (intake_txs dbg n m0 s m1 Ei) as [_ ->]. reflexivity.
@@ -819,7 +838,7 @@ Section Main.
     rewrite E, Hsc in H.
     destruct (can_bundle _ _ _ n m0 ts (is_some gt')); [|injection H as <- <-; auto].
     destruct stake as [s|]; [|injection H as <- <-; auto].
-    destruct (add_transaction_if_validates _ _ dbg n m0 s) as [m1| |s1] eqn:Ei; cbn [bind] in H; try discriminate.
+    destruct (add_transaction_if_validates _ _ _ dbg n m0 s) as [m1| |s1] eqn:Ei; cbn [bind] in H; try discriminate.
     destruct (intake_txs dbg n m0 s m1 Ei) as [_ Hg].
     destruct (create _ _ _ _ _ dbg n creator ts gt' _) as [b0| |s2]; try discriminate;
       injection H as <- <-; cbn [m_gts]; auto.
@@ -924,33 +943,6 @@ Section Main.
         destruct Hft as (f' & -> & E). now apply N.eqb_eq.
   Qed.
 
-  (* ---------------------------------------------------------------- outside the listed classes *)
-  Theorem produced_validates_outside_known : forall dbg (n : nodeM) creator ts gt drained b p,
-    v_tip (view (n_chain _ n)) = Some p ->
-    createF dbg n creator ts gt drained = Ok b ->
-    Known_C07 drained = false ->
-    let c0 := cv (n_chain _ n) (n_ledger _ n) (pre_block (Some p) (par_hash p) creator ts gt drained) in
-    let kept := kept_pool c0 drained in
-    let cC := cv (n_chain _ n) (n_ledger _ n) (pre_block (Some p) (par_hash p) creator ts gt kept) in
-    let cV := cv (n_chain _ n) (n_ledger _ n) b in
-    agreesb dbg hchain cC cV = true ->
-    cv_types_ok cC = true ->
-    (c_fee_tx cC <> None -> gt <> None) ->
-    (forall g, gt = Some g -> is_type TGoldenTicket g = true /\ gt_ok (n_chain _ n) g = true) ->
-    pool_types_ok drained = true ->
-    kept <> [] ->
-    (v_stake_req (view (n_chain _ n)) = 0 \/ count_type TBlockStake kept = 1) ->
-    forallb (tx_valid (n_chain _ n) (n_ledger _ n)) (b_txs b) = true ->
-    work_needed (par_burnfee p) ts (par_ts p) (v_heartbeat (view (n_chain _ n)))
-      <= nsum (map t_work (opt_list gt ++ kept)) ->
-    validateM dbg n true b = Ok true.
-  Proof.
-    intros dbg n creator ts gt drained b p Htip Hcreate Hk c0 kept cC cV Hag Hty Hfeegt Hgt Hpool Hne Hstake Hvalid Hwork.
-    unfold Known_C07 in Hk. apply N.ltb_ge in Hk.
-    apply produced_validates_F with (creator := creator) (ts := ts) (gt := gt) (drained := drained) (p := p); auto.
-    lia.
-  Qed.
-
   (* ---------------------------------------------------------------- the window (fix bb88717) *)
   Section Window.
     Variable key_block : N -> N.
@@ -989,6 +981,7 @@ Section Main.
       intros dbg n m t m1 Hv Hy H. unfold add_transaction_if_validates in H.
       destruct (producer_only t); [injection H as <-; exact Hy|].
       destruct (is_type TBlockStake t && negb (t_own t)); [injection H as <-; exact Hy|].
+      destruct (is_type TIssuance t && negb (v_blocks_empty _)); [injection H as <-; exact Hy|].
       destruct (tx_valid _ _ t) eqn:Et; [|injection H as <-; exact Hy].
       destruct (add_transaction_txs dbg m t m1 H) as [[->|[-> _]] _]; [exact Hy|].
       unfold young_pool. cbn [forallb]. rewrite (Hv t Et). exact Hy.
@@ -1052,8 +1045,8 @@ Section Main.
       cv_types_ok cC = true ->
       (c_fee_tx cC <> None -> gt' <> None) ->
       (forall g, gt = Some g -> is_type TGoldenTicket g = true) ->
-      pool_types_ok (m_txs m1) = true ->
-      count_type TIssuance (m_txs m1) = 0 ->
+      pool_types_ok (m_txs m) = true ->
+      count_type TIssuance (m_txs m) = 0 ->
       (v_stake_req (view (n_chain _ n)) = 0 \/ count_type TBlockStake (m_txs m1) = 1) ->
       forallb (tx_valid (n_chain _ n) (n_ledger _ n)) (b_txs b) = true ->
       m_work m <= nsum (map t_work (m_txs m)) ->
@@ -1061,7 +1054,7 @@ Section Main.
       acceptsM dbg n b = Ok true.
     Proof.
       intros dbg n creator m ts gt stake order b m' p Htip Hb gt' m0 s m1 Hsc Hs Hi drained cC cV
-             Hvy Hy Hdue Hag Hty Hfeegt Hgt Hpool Hiss Hstake Hvalid Hcache Hsupply.
+             Hvy Hy Hdue Hag Hty Hfeegt Hgt Hpool0 Hiss0 Hstake Hvalid Hcache Hsupply.
       destruct (screen_inv n m gt gt' m0 Hsc) as (Htx0 & _ & _ & _ & _).
       assert (Hy0 : young_pool key_block gp next (m_txs m0) = true) by now rewrite Htx0.
       destruct (young_pool_nothing_left_out dbg n m0 s m1 order creator ts gt' p Htip Hvy Hy0 Hi Hdue) as [Hk Hw].
@@ -1071,6 +1064,13 @@ Section Main.
         as (gt2 & m02 & w & s' & m1' & Hsc' & Hgate & _ & _ & _ & _ & _).
       rewrite Hsc in Hsc'. injection Hsc' as <- <-.
       destruct (gate_inv n m0 ts (is_some gt') w p Htip Hgate) as (Hnil & _).
+      assert (Hstd := gate_started n m0 ts (is_some gt') w Hgate).
+      assert (Hpool : pool_types_ok (m_txs m1) = true /\ count_type TIssuance (m_txs m1) = 0).
+      { destruct (intake_txs dbg n m0 s m1 Hi) as [[E|(E & Hok & Hni)] _]; rewrite E, Htx0; [auto|].
+        split.
+        - unfold pool_types_ok. cbn [forallb]. rewrite Hok. exact Hpool0.
+        - unfold count_type, countb in *. cbn [filter]. rewrite (Hni Hstd). exact Hiss0. }
+      destruct Hpool as [Hpool Hiss].
       eapply bundle_produced_validates_gen with (gt' := gt') (m0 := m0) (s := s) (m1 := m1); eauto;
         fold drained; fold cC; rewrite ?Hk; auto.
       - destruct Hstake as [H|H]; [left; exact H|right].
@@ -1095,43 +1095,54 @@ Section Main.
       young_tx key_block gp (next_of (n_chain _ n)) x = true.
 
     Notation pev := (pev chain).
-    Notation pstep := (pstep chain tx_valid key_block gp next_of).
-    Notation prun := (prun chain tx_valid key_block gp next_of).
-    Notation arrives_exempt := (arrives_exempt chain).
+    Notation pstep := (pstep chain view tx_valid key_block gp next_of).
+    Notation prun := (prun chain view tx_valid key_block gp next_of).
+    Notation started := (started chain view).
+    Notation tip_started := (tip_started chain view).
     Notation PoolInv := (PoolInv chain key_block gp next_of).
 
-    Lemma pstep_inv dbg st e st1 :
-      arrives_exempt e = false -> PoolInv st -> pstep dbg st e = Ok st1 -> PoolInv st1.
+    (* on a running chain neither an ATR-typed (producer only) nor an Issuance-typed (fix 716c212)
+       transaction gets into the pool *)
+    Lemma intake_not_exempt dbg (n : nodeM) m t m1 :
+      v_blocks_empty (view (n_chain _ n)) = false ->
+      Forall (fun t => window_exempt t = false) (m_txs m) ->
+      intakeM dbg n m t = Ok m1 ->
+      Forall (fun t => window_exempt t = false) (m_txs m1).
     Proof.
-      intros Hex [Hy Hne] H. destruct e as [t|n' sp cf|f]; cbn [pstep] in H.
-      - destruct (add_transaction_if_validates _ _ dbg (fst st) (snd st) t) as [m1| |s1] eqn:Ei; cbn [bind] in H; try discriminate.
-        injection H as <-. cbn [fst snd]. split.
+      intros Hs Hne Hi. destruct (intake_txs dbg n m t m1 Hi) as [[E|(E & Hok & Hiss)] _]; rewrite E; [exact Hne|].
+      constructor; [|exact Hne]. unfold window_exempt. rewrite (Hiss Hs).
+      unfold pool_tx_ok in Hok. rewrite !andb_true_iff in Hok. destruct Hok as [[_ _] Ha].
+      apply negb_true_iff in Ha. now rewrite Ha.
+    Qed.
+
+    Lemma pstep_inv dbg st e st1 :
+      tip_started e = true -> started st = true -> PoolInv st -> pstep dbg st e = Ok st1 ->
+      PoolInv st1 /\ started st1 = true.
+    Proof.
+      intros Hex Hst [Hy Hne] H. destruct e as [t|n' sp cf|f]; cbn [pstep] in H.
+      - destruct (add_transaction_if_validates _ _ _ dbg (fst st) (snd st) t) as [m1| |s1] eqn:Ei; cbn [bind] in H; try discriminate.
+        injection H as <-. split; [|exact Hst]. cbn [fst snd]. split.
         + eapply intake_keeps_young; eauto.
-        + unfold add_transaction_if_validates in Ei.
-          destruct (producer_only t); [injection Ei as <-; exact Hne|].
-          destruct (is_type TBlockStake t && negb (t_own t)); [injection Ei as <-; exact Hne|].
-          destruct (tx_valid _ _ t); [|injection Ei as <-; exact Hne].
-          destruct (add_transaction_txs dbg (snd st) t m1 Ei) as [[E|[E _]] _]; cbn [snd]; rewrite E; [exact Hne|].
-          constructor; [exact Hex|exact Hne].
-      - injection H as <-. cbn [fst snd with_txs m_txs]. split.
+        + eapply intake_not_exempt; eauto. unfold Producer.started in Hst. now apply negb_true_iff in Hst.
+      - injection H as <-. split; [|exact Hex]. cbn [fst snd with_txs m_txs]. split.
         + apply revalidate_young. exact Hne.
         + unfold revalidate. rewrite Forall_forall in *. intros t Ht.
           apply filter_In in Ht. destruct Ht as [Ht _]. apply filter_In in Ht. apply Hne. apply Ht.
-      - injection H as <-. cbn [fst snd with_txs m_txs]. split.
+      - injection H as <-. split; [|exact Hst]. cbn [fst snd with_txs m_txs]. split.
         + apply young_filter. exact Hy.
         + rewrite Forall_forall in *. intros t Ht. apply filter_In in Ht. apply Hne. apply Ht.
     Qed.
 
     Theorem pool_stays_young : forall dbg evs st st',
-      forallb (fun e => negb (arrives_exempt e)) evs = true ->
-      PoolInv st -> prun dbg st evs = Ok st' -> PoolInv st'.
+      forallb tip_started evs = true -> started st = true ->
+      PoolInv st -> prun dbg st evs = Ok st' -> PoolInv st' /\ started st' = true.
     Proof.
-      intros dbg evs. induction evs as [|e r IH]; intros st st' Hex Hinv H.
-      - injection H as <-. exact Hinv.
+      intros dbg evs. induction evs as [|e r IH]; intros st st' Hex Hst Hinv H.
+      - injection H as <-. auto.
       - cbn [prun] in H. cbn [forallb] in Hex. apply andb_true_iff in Hex. destruct Hex as [He Hr].
         destruct (pstep dbg st e) as [st1| |s1] eqn:Es; cbn [bind] in H; try discriminate.
-        apply (IH st1 st' Hr); [|exact H].
-        eapply pstep_inv; eauto. now apply negb_true_iff.
+        destruct (pstep_inv dbg st e st1 He Hst Hinv Es) as [Hi1 Hs1].
+        apply (IH st1 st' Hr Hs1 Hi1 H).
     Qed.
   End PoolLife.
 
@@ -1256,7 +1267,7 @@ Section Main.
     destruct (screen_ticket _ _ _ n m gt) as [gt' m0] eqn:Es.
     destruct (can_bundle _ _ _ n m0 ts (is_some gt')); [|discriminate].
     destruct stake as [s|]; [|discriminate].
-    destruct (add_transaction_if_validates _ _ dbg n m0 s) as [m1| |s1] eqn:Ei; cbn [bind] in H; try discriminate.
+    destruct (add_transaction_if_validates _ _ _ dbg n m0 s) as [m1| |s1] eqn:Ei; cbn [bind] in H; try discriminate.
     destruct (create _ _ _ _ _ dbg n creator ts gt' _) as [b0| |s2]; try discriminate.
     injection H as <-. exists gt', m0, s, m1. cbn. repeat split; auto.
     apply (intake_txs dbg n m0 s m1 Ei).
